@@ -150,6 +150,7 @@ MC["staking"] = None
 def markets(tier, seed):
     rnd = random.Random("%d/markets" % seed)
     return (gens_markets.markets(rnd, {"quick": 80, "thorough": 3000}[tier]) + gens_orders.orderbooks(rnd, {"quick": 60, "thorough": 2000}[tier])
+            + gens_markets.fee_on_route(rnd, {"quick": 40, "thorough": 1000}[tier])
             + regress("markets"))
 
 
